@@ -206,6 +206,9 @@ pub struct NodeInfo {
     state: JobState,
     history_output: Option<String>,
     last_considered_in_gen: usize,
+    /// set when the run was aborted before this job had been started: unlike a job that was
+    /// running at that time, it keeps its history.
+    aborted_before_start: bool,
 }
 
 impl NodeInfo {
@@ -408,6 +411,7 @@ impl<T: PPGEvaluatorStrategy> PPGEvaluator<T> {
             state,
             history_output: None,
             last_considered_in_gen: 0,
+            aborted_before_start: false,
         };
         let idx = self.jobs.len() as NodeIndex;
         if self
@@ -798,7 +802,7 @@ impl<T: PPGEvaluatorStrategy> PPGEvaluator<T> {
                     job.state.is_failed()
                         || Self::_job_and_downstreams_are_ephemeral(&self.dag, &self.jobs, idx)
                 );
-                if !job.state.is_upstream_failure() {
+                if !job.state.is_upstream_failure() && !job.aborted_before_start {
                     out.remove(&job.job_id);
                     out.remove(&input_name_key);
                 }
@@ -1544,6 +1548,14 @@ impl<T: PPGEvaluatorStrategy> PPGEvaluator<T> {
                     if !j.state.is_finished() {
                         // an aborted job is no longer on offer
                         self.jobs_ready_to_run.remove(&j.job_id);
+                        // a job that was never started keeps its history: nothing it was built
+                        // from has been touched
+                        j.aborted_before_start = !matches!(
+                            j.state,
+                            JobState::Always(JobStateAlways::Running)
+                                | JobState::Output(JobStateOutput::Running)
+                                | JobState::Ephemeral(JobStateEphemeral::Running(_))
+                        );
                         match j.state {
                             JobState::Ephemeral(_) => {
                                 set_node_state!(
